@@ -629,6 +629,15 @@ func genC01(tier string, seed int64) (*Family, error) {
 		{"div_lit_zero", &expr{op: "/", l: x64, r: mkLit("0", "int64(0)", 'I')}},
 		{"minint_div", &expr{op: "/", l: x64, r: y64}},
 		{"nested_paren", &expr{op: "*", l: &expr{op: "()", l: &expr{op: "-", l: x64, r: &expr{op: "()", l: &expr{op: "+", l: y64, r: mkVar("z", "int64")}}}}, r: mkVar("w", "int32")}},
+		{"lead0_add", &expr{op: "+", l: x64, r: mkLit("010", "int64(10)", 'I')}},
+		{"lead0_eq", &expr{op: "==", l: x64, r: mkLit("010", "int64(10)", 'I')}},
+		{"lead0_div", &expr{op: "/", l: mkLit("0100", "int64(100)", 'I'), r: y64}},
+		{"lead0_08", &expr{op: "-", l: x64, r: mkLit("08", "int64(8)", 'I')}},
+		{"lead0_neg", &expr{op: "*", l: x64, r: &expr{op: "()", l: mkLit("-010", "int64(-10)", 'I')}}},
+		{"lead0_007", &expr{op: "<", l: x64, r: mkLit("007", "int64(7)", 'I')}},
+		{"lead0_zero", &expr{op: "+", l: x64, r: mkLit("00", "int64(0)", 'I')}},
+		{"lead0_real", &expr{op: "*", l: x64, r: mkLit("010.5", "float64(10.5)", 'F')}},
+		{"maxint_lit", &expr{op: "+", l: x64, r: mkLit("9223372036854775807", "int64(9223372036854775807)", 'I')}},
 		{"cmp_of_sums", &expr{op: "<=", l: &expr{op: "+", l: x64, r: y64}, r: &expr{op: "*", l: mkVar("z", "int64"), r: mkVar("w", "int64")}}},
 	}
 	for _, l := range lits {
